@@ -79,12 +79,12 @@ theorem sdat_parseValue_fst (toks : List Tok) (s : BP α) :
 /-! ### the data predicates, relative to a reference token list `T` (a block, or the token stream of the document) -/
 
 /-- `sp` is the span of the token run `toks`: first start to last end; an empty run has an empty span -/
-def SpanOf (sp : Span) (toks : List Tok) : Prop :=
+def TokSpanOf (sp : Span) (toks : List Tok) : Prop :=
   (toks ≠ [] → sp = tokensSpan toks) ∧ (toks = [] → sp.start = sp.stop)
 
 /-- the located value is what `parse_value` reads from a run of adjacent tokens of `T` whose span is its span -/
 def ValueAt (cs : CharSpec) (e : Ext) (T : List Tok) (v : Loc (Value α)) : Prop :=
-  ∃ toks, toks <:+: T ∧ SpanOf v.span toks ∧
+  ∃ toks, toks <:+: T ∧ TokSpanOf v.span toks ∧
     v.val = readValue cs (e.has Gen.EXT_RANGE_VALUES) v.span.start toks
 
 /-- the scaling lock is the span of an `=` token of `T` -/
@@ -93,15 +93,15 @@ def LockAt (T : List Tok) (sp : Span) : Prop := ∃ t, [t] <:+: T ∧ t.kind = .
 def QValAt (cs : CharSpec) (e : Ext) (T : List Tok) (v : PQValue α) : Prop :=
   ValueAt cs e T v.value ∧ ∀ sp, v.lock = some sp → LockAt T sp
 
-theorem slice_infix (ts : List Tok) (i j : Nat) : slice ts i j <:+: ts := by
+theorem sdat_slice_infix (ts : List Tok) (i j : Nat) : slice ts i j <:+: ts := by
   unfold slice
   exact (List.drop_suffix _ _).isInfix.trans (List.take_prefix _ _).isInfix
 
 theorem sdat_tok_infix {ts : List Tok} {i : Nat} {t : Tok} (h : ts[i]? = some t) : [t] <:+: ts := by
-  rw [← slice_one h]; exact slice_infix _ _ _
+  rw [← slice_one h]; exact sdat_slice_infix _ _ _
 
 theorem sdat_spanOf (o : Nat) (vt : List Tok) :
-    SpanOf ⟨(vt.head?.map (·.start)).getD (lastStop o vt), lastStop o vt⟩ vt := by
+    TokSpanOf ⟨(vt.head?.map (·.start)).getD (lastStop o vt), lastStop o vt⟩ vt := by
   constructor
   · intro hne
     cases vt with
@@ -129,23 +129,23 @@ theorem QValAt.mono {cs : CharSpec} {e : Ext} {T T' : List Tok} {v : PQValue α}
 variable {ts : List Tok} {e : Ext} {s : BP α}
 
 /-- the conjunction of two facts about one run -/
-theorem Sat.both {β : Type} {m : P α β} {Q Q' : β → BP α → Prop} (h : Sat m s Q) (h' : Sat m s Q') :
+theorem Sat.sdatBoth {β : Type} {m : P α β} {Q Q' : β → BP α → Prop} (h : Sat m s Q) (h' : Sat m s Q') :
     Sat m s (fun r s' => Q r s' ∧ Q' r s') := ⟨h, h'⟩
 
 /-- the character tables are kept -/
-theorem Sat.cs {β : Type} {m : P α β} (hm : FG m) {Q : β → BP α → Prop} (h : Sat m s Q) :
+theorem Sat.sdatCs {β : Type} {m : P α β} (hm : FG m) {Q : β → BP α → Prop} (h : Sat m s Q) :
     Sat m s (fun r s' => Q r s' ∧ s'.cs = s.cs) := ⟨h, (hm.out s).1⟩
 
 theorem scalingLock_data (h : G ts e s) :
     Sat scalingLock s (fun r s' => G ts e s' ∧ s.cur ≤ s'.cur ∧ s'.cs = s.cs ∧ ∀ sp, r = some sp → LockAt ts sp) := by
   unfold scalingLock wsComments
-  refine Sat.bind (Sat.mono (Sat.cs (FQ.consumeWhile _).toFG (consumeWhile_sat _ h)) ?_)
+  refine Sat.bind (Sat.mono (Sat.sdatCs (FQ.consumeWhile _).toFG (consumeWhile_sat _ h)) ?_)
   rintro r s1 ⟨⟨g1, c1, -⟩, cs1⟩
   refine Sat.bind (atK_sat g1 ?_)
   split
   · rename_i hc
     obtain ⟨t, ht, hk⟩ := atK_true hc
-    refine Sat.bind (Sat.mono (Sat.cs FQ.bumpAny.toFG (bumpAny_sat g1 ht)) ?_)
+    refine Sat.bind (Sat.mono (Sat.sdatCs FQ.bumpAny.toFG (bumpAny_sat g1 ht)) ?_)
     rintro r2 s2 ⟨⟨rfl, g2, c2⟩, cs2⟩
     refine Sat.pure ⟨g2, by omega, cs2.trans cs1, ?_⟩
     intro sp hsp
@@ -157,11 +157,11 @@ theorem qvalue_data (h : G ts e s) : Sat (qvalue (α := α)) s (fun r _ => QValA
   unfold qvalue
   refine Sat.bind (Sat.mono (scalingLock_data h) ?_)
   rintro lock s1 ⟨g1, c1, cs1, hlock⟩
-  refine Sat.bind (Sat.mono (Sat.cs (FQ.consumeWhile _).toFG (consumeWhile_sat _ g1)) ?_)
+  refine Sat.bind (Sat.mono (Sat.sdatCs (FQ.consumeWhile _).toFG (consumeWhile_sat _ g1)) ?_)
   rintro vt s2 ⟨⟨g2, c2, hvt, -, -⟩, cs2⟩
   refine Sat.bind (Sat.mono (sdat_parseValue_fst vt s2) ?_)
   rintro v s3 rfl
-  refine Sat.pure ⟨⟨vt, by rw [hvt]; exact slice_infix _ _ _, ?_, ?_⟩, hlock⟩
+  refine Sat.pure ⟨⟨vt, by rw [hvt]; exact sdat_slice_infix _ _ _, ?_, ?_⟩, hlock⟩
   · rw [g2.toks, ← offAt_slice c2, ← hvt]
     exact sdat_spanOf _ _
   · rw [g2.ext, cs2, cs1]
@@ -169,7 +169,7 @@ theorem qvalue_data (h : G ts e s) : Sat (qvalue (α := α)) s (fun r _ => QValA
 theorem parseRegularQuantity_data (hw : WF ts) (h : G ts e s) :
     Sat (parseRegularQuantity (α := α)) s (fun r _ => QValAt s.cs e ts r.quantity.val.value) := by
   unfold parseRegularQuantity
-  refine Sat.bind (Sat.mono (Sat.both (qvalue_sat hw h) (qvalue_data h)) ?_)
+  refine Sat.bind (Sat.mono (Sat.sdatBoth (qvalue_sat hw h) (qvalue_data h)) ?_)
   rintro value s1 ⟨⟨g1, c1⟩, hval⟩
   apply Sat.bind
   apply Sat.mono (Q := fun _ s' => G ts e s')
@@ -206,7 +206,7 @@ theorem sdat_rtrim_infix (p : Tok → Bool) (l : List Tok) : (l.reverse.dropWhil
   obtain ⟨suf, hsuf⟩ := rtrim_prefix p l
   exact ⟨[], suf, by simpa using hsuf.symm⟩
 
-theorem sdat_spanOf_ne {l : List Tok} (hne : l ≠ []) : SpanOf (tokensSpan l) l :=
+theorem sdat_spanOf_ne {l : List Tok} (hne : l ≠ []) : TokSpanOf (tokensSpan l) l :=
   ⟨fun _ => rfl, fun h0 => absurd h0 hne⟩
 
 theorem parseAdvancedQuantity_data (hw : WF ts) (h : G ts e s) :
@@ -256,7 +256,7 @@ theorem parseAdvancedQuantity_data (hw : WF ts) (h : G ts e s) :
   rename_i r hr
   have hrun : RunAt (offAt ts s3.cur) ut := by rw [hut]; exact slice_runAt hw.run g3.le
   have hinf : (vt.reverse.dropWhile (fun t => t.kind == .ws || t.kind == .blockComment)).reverse <:+: ts :=
-    (sdat_rtrim_infix _ vt).trans (by rw [hvt]; exact slice_infix _ _ _)
+    (sdat_rtrim_infix _ vt).trans (by rw [hvt]; exact sdat_slice_infix _ _ _)
   apply Sat.bind
   apply Sat.mono (Q := fun v s' => G ts e s' ∧
     v = readValue s.cs (e.has Gen.EXT_RANGE_VALUES)
@@ -294,7 +294,7 @@ theorem parseQuantity_data {q : List Tok} (hq : WF q) (h : G ts e s) :
   · refine Sat.bind (hasExt_sat g0 ?_)
     split
     · apply withRecover_sat
-      refine Sat.mono (Sat.both (Sat.cs FG.parseAdvancedQuantity (parseAdvancedQuantity_sat hq g0))
+      refine Sat.mono (Sat.sdatBoth (Sat.sdatCs FG.parseAdvancedQuantity (parseAdvancedQuantity_sat hq g0))
         (parseAdvancedQuantity_data hq g0)) ?_
       rintro r s1 ⟨⟨g1, cs1⟩, hd⟩
       cases r with
@@ -583,7 +583,7 @@ theorem parseModifiersLoop_data (span : Span) (ie : Bool) (fuel : Nat) (mtoks : 
 
 /-- the located modifier set is the reading of a run of adjacent tokens of `T` whose span is its span -/
 def ModsAt (T : List Tok) (m : Loc Modifiers) : Prop :=
-  ∃ mtoks, mtoks <:+: T ∧ SpanOf m.span mtoks ∧ m.val = readModifiers mtoks
+  ∃ mtoks, mtoks <:+: T ∧ TokSpanOf m.span mtoks ∧ m.val = readModifiers mtoks
 
 theorem ModsAt.mono {T T' : List Tok} {m : Loc Modifiers} (h : ModsAt T m) (hi : T <:+: T') : ModsAt T' m := by
   obtain ⟨g, h1, h2, h3⟩ := h
@@ -591,7 +591,7 @@ theorem ModsAt.mono {T T' : List Tok} {m : Loc Modifiers} (h : ModsAt T m) (hi :
 
 theorem parseModifiers_data (mtoks : List Tok) (pos : Nat) (h : G ts e s)
     (hm : ModSeq (e.has Gen.EXT_INTERMEDIATE_PREPARATIONS) mtoks) :
-    Sat (parseModifiers (α := α) mtoks pos) s (fun r _ => SpanOf r.flags.span mtoks ∧
+    Sat (parseModifiers (α := α) mtoks pos) s (fun r _ => TokSpanOf r.flags.span mtoks ∧
       r.flags.val = readModifiers mtoks ∧ ∀ x, r.inter = some x → InterAt mtoks x) := by
   unfold parseModifiers
   split
@@ -649,7 +649,7 @@ theorem compBody_qinfix (h : G ts e s) :
           split at hq'
           · simp only [Option.some.injEq] at hq'
             subst hq'
-            rw [hq]; exact slice_infix _ _ _
+            rw [hq]; exact sdat_slice_infix _ _ _
           · cases hq'
   unfold compBody
   refine Sat.bind (Sat.mono hlong ?_)
@@ -701,42 +701,42 @@ theorem ingredientP_data (hc : Ctx off w Pv ts) (h : GE Pv ts e s) :
     fun s' hs' => Sat.pure ⟨hs', fun ev hev => by cases hev⟩
   unfold ingredientP
   refine Sat.bind (currentOffset_sat h.g ?_)
-  refine Sat.bind (Sat.mono (Sat.cs (FQ.consumeK _).toFG (consumeK_ge _ h)) ?_)
+  refine Sat.bind (Sat.mono (Sat.sdatCs (FQ.consumeK _).toFG (consumeK_ge _ h)) ?_)
   rintro r1 s1 ⟨⟨g1, h1⟩, cs1⟩
   cases r1 with
   | none => exact none_ok _ cs1
   | some m =>
     obtain ⟨-, -, c1⟩ := h1
     refine Sat.bind (currentOffset_sat g1.g ?_)
-    refine Sat.bind (Sat.mono (Sat.cs FQ.modifiersP.toFG (modifiersP_ev g1)) ?_)
+    refine Sat.bind (Sat.mono (Sat.sdatCs FQ.modifiersP.toFG (modifiersP_ev g1)) ?_)
     rintro mtoks s2 ⟨⟨g2, c2, hm, hmt⟩, cs2⟩
     have hrm : RunIn off w (offAt ts s1.cur) mtoks := by rw [hmt]; exact hc.wfi.slice c2
     refine Sat.bind (currentOffset_sat g2.g ?_)
-    refine Sat.bind (Sat.mono (Sat.both (Sat.cs FG.compBody (compBody_ev hc g2)) (compBody_qinfix g2.g)) ?_)
+    refine Sat.bind (Sat.mono (Sat.sdatBoth (Sat.sdatCs FG.compBody (compBody_ev hc g2)) (compBody_qinfix g2.g)) ?_)
     rintro r3 s3 ⟨⟨⟨g3, h3⟩, cs3⟩, hqi⟩
     cases r3 with
     | none => exact none_ok _ (by rw [cs3, cs2, cs1])
     | some body =>
       obtain ⟨c3, hname, hq, -⟩ := h3
-      refine Sat.bind (Sat.mono (Sat.cs FQ.noteP.toFG (noteP_ev hc g3)) ?_)
+      refine Sat.bind (Sat.mono (Sat.sdatCs FQ.noteP.toFG (noteP_ev hc g3)) ?_)
       rintro note s4 ⟨⟨g4, c4, hnote⟩, cs4⟩
       refine Sat.bind (currentOffset_sat g4.g ?_)
-      refine Sat.bind (Sat.mono (Sat.cs (FG.parseAlias _ _ _) (parseAlias_ev hc "ingredient" hname g4)) ?_)
+      refine Sat.bind (Sat.mono (Sat.sdatCs (FG.parseAlias _ _ _) (parseAlias_ev hc "ingredient" hname g4)) ?_)
       rintro ⟨name, alias⟩ s5 ⟨⟨g5, c5, hnm, hal⟩, cs5⟩
       dsimp only at hnm hal ⊢
-      refine Sat.bind (Sat.mono (Sat.cs (FG.checkEmptyName _ _) (checkEmptyName_ev hc "ingredient" name hnm g5)) ?_)
+      refine Sat.bind (Sat.mono (Sat.sdatCs (FG.checkEmptyName _ _) (checkEmptyName_ev hc "ingredient" name hnm g5)) ?_)
       rintro _ s6 ⟨⟨g6, c6⟩, cs6⟩
-      refine Sat.bind (Sat.mono (Sat.both (Sat.cs (FG.parseModifiers _ _)
+      refine Sat.bind (Sat.mono (Sat.sdatBoth (Sat.sdatCs (FG.parseModifiers _ _)
         (parseModifiers_ev hc mtoks _ g6 hm hrm (hc.wfi.offAt _))) (parseModifiers_data mtoks _ g6.g hm)) ?_)
       rintro pm s7 ⟨⟨⟨g7, c7, -, hfsp, hint⟩, cs7⟩, hsp, hbits, hinter⟩
       have hcs7 : s7.cs = s.cs := by rw [cs7, cs6, cs5, cs4, cs3, cs2, cs1]
-      have hmi : mtoks <:+: ts := by rw [hmt]; exact slice_infix _ _ _
+      have hmi : mtoks <:+: ts := by rw [hmt]; exact sdat_slice_infix _ _ _
       apply Sat.bind
       apply Sat.mono (Q := fun r s' => s'.cs = s.cs ∧
         OptOK (fun q : Loc (PQuantity α) => QValAt s.cs e ts q.val.value) r)
       · split
         · rename_i qt hqt
-          refine Sat.bind (Sat.mono (Sat.cs (FG.parseQuantity _) (parseQuantity_data (hq qt hqt).wf g7.g)) ?_)
+          refine Sat.bind (Sat.mono (Sat.sdatCs (FG.parseQuantity _) (parseQuantity_data (hq qt hqt).wf g7.g)) ?_)
           rintro q s8 ⟨hqd, cs8⟩
           rw [hcs7] at hqd
           exact Sat.pure ⟨by rw [cs8, hcs7], hqd.mono (hqi body qt rfl hqt)⟩
@@ -756,39 +756,39 @@ theorem cookwareP_data (hc : Ctx off w Pv ts) (h : GE Pv ts e s) :
     fun s' hs' => Sat.pure ⟨hs', fun ev hev => by cases hev⟩
   unfold cookwareP
   refine Sat.bind (currentOffset_sat h.g ?_)
-  refine Sat.bind (Sat.mono (Sat.cs (FQ.consumeK _).toFG (consumeK_ge _ h)) ?_)
+  refine Sat.bind (Sat.mono (Sat.sdatCs (FQ.consumeK _).toFG (consumeK_ge _ h)) ?_)
   rintro r1 s1 ⟨⟨g1, h1⟩, cs1⟩
   cases r1 with
   | none => exact none_ok _ cs1
   | some m =>
     obtain ⟨-, -, c1⟩ := h1
     refine Sat.bind (currentOffset_sat g1.g ?_)
-    refine Sat.bind (Sat.mono (Sat.cs FQ.modifiersP.toFG (modifiersP_ev g1)) ?_)
+    refine Sat.bind (Sat.mono (Sat.sdatCs FQ.modifiersP.toFG (modifiersP_ev g1)) ?_)
     rintro mtoks s2 ⟨⟨g2, c2, hm, hmt⟩, cs2⟩
     have hrm : RunIn off w (offAt ts s1.cur) mtoks := by rw [hmt]; exact hc.wfi.slice c2
     refine Sat.bind (currentOffset_sat g2.g ?_)
-    refine Sat.bind (Sat.mono (Sat.both (Sat.cs FG.compBody (compBody_ev hc g2)) (compBody_qinfix g2.g)) ?_)
+    refine Sat.bind (Sat.mono (Sat.sdatBoth (Sat.sdatCs FG.compBody (compBody_ev hc g2)) (compBody_qinfix g2.g)) ?_)
     rintro r3 s3 ⟨⟨⟨g3, h3⟩, cs3⟩, hqi⟩
     cases r3 with
     | none => exact none_ok _ (by rw [cs3, cs2, cs1])
     | some body =>
       obtain ⟨c3, hname, hq, -⟩ := h3
-      refine Sat.bind (Sat.mono (Sat.cs FQ.noteP.toFG (noteP_ev hc g3)) ?_)
+      refine Sat.bind (Sat.mono (Sat.sdatCs FQ.noteP.toFG (noteP_ev hc g3)) ?_)
       rintro note s4 ⟨⟨g4, c4, hnote⟩, cs4⟩
       refine Sat.bind (currentOffset_sat g4.g ?_)
-      refine Sat.bind (Sat.mono (Sat.cs (FG.parseAlias _ _ _) (parseAlias_ev hc "cookware" hname g4)) ?_)
+      refine Sat.bind (Sat.mono (Sat.sdatCs (FG.parseAlias _ _ _) (parseAlias_ev hc "cookware" hname g4)) ?_)
       rintro ⟨name, alias⟩ s5 ⟨⟨g5, c5, hnm, hal⟩, cs5⟩
       dsimp only at hnm hal ⊢
-      refine Sat.bind (Sat.mono (Sat.cs (FG.checkEmptyName _ _) (checkEmptyName_ev hc "cookware" name hnm g5)) ?_)
+      refine Sat.bind (Sat.mono (Sat.sdatCs (FG.checkEmptyName _ _) (checkEmptyName_ev hc "cookware" name hnm g5)) ?_)
       rintro _ s6 ⟨⟨g6, c6⟩, cs6⟩
       have hcs6 : s6.cs = s.cs := by rw [cs6, cs5, cs4, cs3, cs2, cs1]
-      have hmi : mtoks <:+: ts := by rw [hmt]; exact slice_infix _ _ _
+      have hmi : mtoks <:+: ts := by rw [hmt]; exact sdat_slice_infix _ _ _
       apply Sat.bind
       apply Sat.mono (Q := fun r s' => GE Pv ts e s' ∧ s'.cur = s6.cur ∧ s'.cs = s.cs ∧
         OptOK (fun q : Loc (PQValue α) => QValAt s.cs e ts q.val) r)
       · split
         · rename_i qt hqt
-          refine Sat.bind (Sat.mono (Sat.both (Sat.cs (FG.parseQuantity _) (parseQuantity_ev hc (hq qt hqt) g6))
+          refine Sat.bind (Sat.mono (Sat.sdatBoth (Sat.sdatCs (FG.parseQuantity _) (parseQuantity_ev hc (hq qt hqt) g6))
             (parseQuantity_data (hq qt hqt).wf g6.g)) ?_)
           rintro q s7 ⟨⟨⟨g7, c7, hqr⟩, cs7⟩, hqd⟩
           rw [hcs6] at hqd
@@ -811,7 +811,7 @@ theorem cookwareP_data (hc : Ctx off w Pv ts) (h : GE Pv ts e s) :
           · exact Sat.pure ⟨g7, c7, hcs7, hqd'⟩
         · exact Sat.pure ⟨g6, rfl, hcs6, trivial⟩
       rintro quantity s7 ⟨g7, c7, hcs7, hqo⟩
-      refine Sat.bind (Sat.mono (Sat.cs (FG.parseModifiers _ _) (parseModifiers_data mtoks _ g7.g hm)) ?_)
+      refine Sat.bind (Sat.mono (Sat.sdatCs (FG.parseModifiers _ _) (parseModifiers_data mtoks _ g7.g hm)) ?_)
       rintro pm s8 ⟨⟨hsp, hbits, hinter⟩, cs8⟩
       have hcs8 : s8.cs = s.cs := by rw [cs8, hcs7]
       have fin : ∀ s9 : BP α, s9.cs = s.cs →
@@ -856,17 +856,17 @@ theorem timerP_data (hc : Ctx off w Pv ts) (h : GE Pv ts e s) :
     fun s' hs' => Sat.pure ⟨hs', fun ev hev => by cases hev⟩
   unfold timerP
   refine Sat.bind (currentOffset_sat h.g ?_)
-  refine Sat.bind (Sat.mono (Sat.cs (FQ.consumeK _).toFG (consumeK_ge _ h)) ?_)
+  refine Sat.bind (Sat.mono (Sat.sdatCs (FQ.consumeK _).toFG (consumeK_ge _ h)) ?_)
   rintro r1 s1 ⟨⟨g1, h1⟩, cs1⟩
   cases r1 with
   | none => exact none_ok _ cs1
   | some m =>
     obtain ⟨-, -, c1⟩ := h1
-    refine Sat.bind (Sat.mono (Sat.cs FQ.modifiersP.toFG (modifiersP_ev g1)) ?_)
+    refine Sat.bind (Sat.mono (Sat.sdatCs FQ.modifiersP.toFG (modifiersP_ev g1)) ?_)
     rintro mtoks s2 ⟨⟨g2, c2, hm, hmt⟩, cs2⟩
     have hrm : RunIn off w (offAt ts s1.cur) mtoks := by rw [hmt]; exact hc.wfi.slice c2
     refine Sat.bind (currentOffset_sat g2.g ?_)
-    refine Sat.bind (Sat.mono (Sat.both (Sat.cs FG.compBody (compBody_ev hc g2)) (compBody_qinfix g2.g)) ?_)
+    refine Sat.bind (Sat.mono (Sat.sdatBoth (Sat.sdatCs FG.compBody (compBody_ev hc g2)) (compBody_qinfix g2.g)) ?_)
     rintro r3 s3 ⟨⟨⟨g3, h3⟩, cs3⟩, hqi⟩
     have hcs3 : s3.cs = s.cs := by rw [cs3, cs2, cs1]
     cases r3 with
@@ -888,10 +888,10 @@ theorem timerP_data (hc : Ctx off w Pv ts) (h : GE Pv ts e s) :
             (fun r s' => s'.cs = s.cs ∧ ∀ ev, r = some ev → EvDataAt s.cs e ts ev) := by
           intro r s5 g5 cs5
           simp -zeta only [jp2]
-          refine Sat.bind (Sat.mono (Sat.cs FG.checkNoteTimer (checkNoteTimer_ev hc g5)) ?_)
+          refine Sat.bind (Sat.mono (Sat.sdatCs FG.checkNoteTimer (checkNoteTimer_ev hc g5)) ?_)
           rintro _ s6 ⟨⟨g6, c6⟩, cs6⟩
           have hcs6 : s6.cs = s.cs := by rw [cs6, cs5]
-          refine Sat.bind (Sat.mono (Sat.cs (FQ.bpText _ _).toFG (bpText_sat hname.run (Q := fun _ s' => s' = s6) rfl)) ?_)
+          refine Sat.bind (Sat.mono (Sat.sdatCs (FQ.bpText _ _).toFG (bpText_sat hname.run (Q := fun _ s' => s' = s6) rfl)) ?_)
           rintro name s6' ⟨rfl, -⟩
           refine Sat.bind (Sat.get ?_)
           try simp -zeta only
@@ -901,7 +901,7 @@ theorem timerP_data (hc : Ctx off w Pv ts) (h : GE Pv ts e s) :
             OptOK (fun q : Loc (PQuantity α) => QValAt s.cs e ts q.val.value ∨ q = recoverPQuantity) r)
           · split
             · rename_i qt hqt
-              refine Sat.bind (Sat.mono (Sat.cs (FG.parseQuantity _) (parseQuantity_data (hq qt hqt).wf g6.g)) ?_)
+              refine Sat.bind (Sat.mono (Sat.sdatCs (FG.parseQuantity _) (parseQuantity_data (hq qt hqt).wf g6.g)) ?_)
               rintro q s7 ⟨hqd, cs7⟩
               rw [hcs6] at hqd
               have hqd' := hqd.mono (hqi body qt rfl hqt)
